@@ -558,6 +558,72 @@ def validated_by_unpack(fn, st):
     return False, "the advance %s is neither a positive constant nor validated" % N
 
 
+STRINGIFIERS = ("str", "repr", "ascii", "format", "unicode")
+
+
+def _stringified_params(fn):
+    ps = {a.arg for a in fn.args.args}
+    out = set()
+    for n in ast.walk(fn):
+        if isinstance(n, ast.Call) and isinstance(n.func, ast.Name) and n.func.id in STRINGIFIERS and n.args and isinstance(n.args[0], ast.Name) and n.args[0].id in ps:
+            out.add(n.args[0].id)
+    return out
+
+
+def _object_text_sinks(fn, summaries_for_call):
+    """[(node, what)]: places where an object that r_object() returned -- an arbitrary, possibly shared, object graph -- is turned into text"""
+    def from_robj(e):
+        return isinstance(e, ast.Call) and ast.unparse(e.func).endswith("r_object")
+    tainted = set()
+    for n in ast.walk(fn):
+        if isinstance(n, ast.Assign) and from_robj(n.value):
+            tainted |= {t.id for t in n.targets if isinstance(t, ast.Name)}
+
+    def hot(e):
+        return from_robj(e) or (isinstance(e, ast.Name) and e.id in tainted)
+    out = []
+    for n in ast.walk(fn):
+        if isinstance(n, ast.Call):
+            hits = [a for a in n.args if hot(a)]
+            if hits and isinstance(n.func, ast.Name) and n.func.id in STRINGIFIERS:
+                out.append((n, "%s() of an unmarshalled object" % n.func.id))
+            elif hits and summaries_for_call(n):
+                out.append((n, "handed to %s, which turns its argument into text" % ast.unparse(n.func)))
+        elif isinstance(n, ast.BinOp) and isinstance(n.op, ast.Mod) and isinstance(n.left, (ast.Constant, ast.JoinedStr)) and isinstance(getattr(n.left, "value", ""), str):
+            parts = n.right.elts if isinstance(n.right, ast.Tuple) else [n.right]
+            if any(hot(p_) for p_ in parts):
+                out.append((n, "%-formatting of an unmarshalled object"))
+        elif isinstance(n, ast.FormattedValue) and hot(n.value):
+            out.append((n, "f-string of an unmarshalled object"))
+    return out
+
+
+def object_text_rule(rep, repo, cg, seen):
+    """R7: a reference graph of depth d in the file has d + 1 nodes but 2**d leaves when written out as text"""
+    ctl = ast.parse("def t_ctl(self):\n    name = self.r_object()\n    a = str(name)\n    b = '%s' % (name,)\n    c = len(name)\n    return a, b, c\n").body[0]
+    if len(_object_text_sinks(ctl, lambda n: False)) != 2:
+        raise AnalysisError("positive control failed for the object-to-text rule")
+    summ = {q: _stringified_params(repo.functions[q][1]) for q in seen}
+    nfun = 0
+    for q in sorted(seen):
+        m, fn = repo.functions[q]
+        if not any(isinstance(n, ast.Call) and ast.unparse(n.func).endswith("r_object") for n in ast.walk(fn)):
+            continue
+        nfun += 1
+        by_node = {id(s.node): s for s in cg.sites.get(q, ())}
+
+        def summaries_for_call(n, by_node=by_node):
+            s = by_node.get(id(n))
+            return bool(s) and any(summ.get(t) for t in s.targets)
+        hits = _object_text_sinks(fn, summaries_for_call)
+        for node, what in hits:
+            rep.ob("R7", q, "object-to-text:%s" % norm(node)[:60], False, expected="objects read from the file are stored or type-checked, never formatted", derived=what, where=repo.where(m, node),
+                   msg="%s: a few hundred bytes of back-references (a DAG of depth d has 2**d leaves as text) make load_module run out of time and memory" % what)
+        if not hits:
+            rep.ob("R7", q, "no-object-to-text", True)
+    rep.floor("functions that read objects with r_object", nfun, 8)
+
+
 def allocation_rule(rep, repo, cg, seen):
     ctl = positive_control()
     if ctl != ["comprehension-without-read", "materialised-range", "padded-buffer", "repeat", "sized-buffer"]:
@@ -593,6 +659,8 @@ def run(rep, tier):
     rep.rule("R5", "xdis.marsh fast reader (dropbox path): every store to the cursor is monotone; _read1/_r_short/_r_long/_r_long64/load advance by >= 1 byte; "
                    "every loop of a dispatch function calls one of them on each continuing path")
     rep.rule("R6", "no function reachable from load_module allocates memory proportional to an unvalidated count decoded from the file without reading per element")
+    rep.rule("R7", "no function reachable from load_module turns an object returned by r_object() into text (str / repr / format / % / f-string, directly or through a "
+                   "helper that stringifies its argument): shared references make the text exponentially larger than the file")
     rep.rule("R3", "every input-driven loop of the unmarshaller performs, on every iteration path, a stream read that fails at EOF; r_object reads a byte before dispatching")
     repo = get_repo()
     T = tables()
@@ -717,6 +785,7 @@ def run(rep, tier):
     header_rule(rep, T)
     fast_reader_rule(rep, repo, T, cg)
     allocation_rule(rep, repo, cg, seen)
+    object_text_rule(rep, repo, cg, seen)
     rep.extra["sinks_reachable"] = nsink
     rep.assumptions = ["the table of total operations in rules/c11.py (each with its reason)", "allocation size of fp.read(n) for hostile n, wall time, recursion depth "
                        "(RecursionError is an Exception and is converted) and crashes inside the built-in marshal on the host fast path are not decided",
